@@ -508,13 +508,13 @@ Section MainLoop.
         Lemma beep_rec (b : bool) j s :
           P H s -> bd (buf (e_line s)) start /\ start <= pos (e_line s) ->
           (exists es, e_changes s = cs_notify_all U (useg U) (fst (cs_begin c0)) es) ->
-          match ((if b then beep else eret tt) ;;; rec j) s with EPanic => False | EOk r s' => Qs c0 t0 p0 r s' | _ => True end.
+          match ((if b then beep cfg else eret tt) ;;; rec j) s with EPanic => False | EOk r s' => Qs c0 t0 p0 r s' | _ => True end.
         Proof.
           intros HP Hline [es Hes]. unfold ebind at 1. destruct b.
-          - pose proof (q5_beep s) as Hq. destruct (beep s) as [u s1| | |] eqn:Eb; auto.
+          - pose proof (q5_beep cfg s) as Hq. destruct (beep cfg s) as [u s1| | |] eqn:Eb; auto.
             destruct Hq as [[L1 [C1 [K1 S1]]] N1]. apply rec_lp.
             assert (HP1 : P H s1).
-            { pose proof (rp_of_kq H _ (kq_of_q5 cfg _ q5_beep) ltac:(unfold beep; kh_auto) s HP) as Hx. rewrite Eb in Hx. exact Hx. }
+            { pose proof (rp_of_kq H _ (kq_of_q5 cfg _ (q5_beep cfg)) ltac:(unfold beep; kh_auto) s HP) as Hx. rewrite Eb in Hx. exact Hx. }
             split; [split; [exact HP1|exists es; rewrite C1; exact Hes]|rewrite L1; exact Hline].
           - cbn [eret]. apply rec_lp. split; [split; [exact HP|exists es; exact Hes]|exact Hline].
         Qed.
@@ -613,7 +613,7 @@ Section MainLoop.
       destruct (completer_ok (buf (e_line s)) (pos (e_line s)) Hw) as [Hbs Hle].
       destruct (c_complete cfg (buf (e_line s)) (pos (e_line s))) as [start cands]. cbn [fst] in Hbs, Hle.
       destruct cands as [|cd cds].
-      { assert (Hr : rp H (beep ;;; eret (@None cmd))).
+      { assert (Hr : rp H (beep cfg ;;; eret (@None cmd))).
         { apply rp_bind; [apply rp_of_kq; [apply kq_of_q5, q5_beep|unfold beep; kh_auto]|]. intros _. apply rp_ret. }
         apply Hr. exact HP. }
       destruct (c_completion cfg).
@@ -704,9 +704,9 @@ Section MainLoop.
       destruct (completer_ok (buf (e_line s)) (pos (e_line s)) Hw) as [Hbs Hle].
       destruct (c_complete cfg (buf (e_line s)) (pos (e_line s))) as [start cands]. cbn [fst] in Hbs, Hle.
       destruct cands as [|cd cds].
-      { unfold ebind. pose proof (q5_beep s) as Hq.
-        pose proof (rp_of_kq H _ (kq_of_q5 cfg _ q5_beep) ltac:(unfold beep; kh_auto) s HP) as Hx.
-        destruct (beep s) as [u s1| | |]; auto. destruct Hq as [[L1 [C1 _]] _]. cbn.
+      { unfold ebind. pose proof (q5_beep cfg s) as Hq.
+        pose proof (rp_of_kq H _ (kq_of_q5 cfg _ (q5_beep cfg)) ltac:(unfold beep; kh_auto) s HP) as Hx.
+        destruct (beep cfg s) as [u s1| | |]; auto. destruct Hq as [[L1 [C1 _]] _]. cbn.
         split; [exact Hx|intros _; rewrite L1, C1; repeat split]. }
       rewrite Hct.
       unfold ebind at 1. unfold changes_begin. unfold ebind at 1. cbn [eget].
